@@ -352,7 +352,9 @@ func (ii *invertedIndex) findSeriesIDsByKeyFromMem(key uint32, seriesIDs *roarin
 func (ii *invertedIndex) prepareFlush() {
 	ii.lock.Lock()
 	defer ii.lock.Unlock()
-	if ii.immutable == nil {
+	// NOTE: never swap an empty mutable store: flush ignores an empty immutable store(keeps it),
+	// then the store can not be swapped any more and new data is never flushed.
+	if ii.immutable == nil && !ii.mutable.IsEmpty() {
 		ii.immutable = ii.mutable
 		ii.mutable = imap.NewIntMap[*roaring.Bitmap]()
 	}
@@ -576,7 +578,9 @@ func (fi *forwardIndex) withLock() (release func()) {
 func (fi *forwardIndex) prepareFlush() {
 	fi.lock.Lock()
 	defer fi.lock.Unlock()
-	if fi.immutable == nil {
+	// NOTE: never swap an empty mutable store: flush ignores an empty immutable store(keeps it),
+	// then the store can not be swapped any more and new data is never flushed.
+	if fi.immutable == nil && !fi.mutable.IsEmpty() {
 		fi.immutable = fi.mutable
 		fi.mutable = imap.NewIntMap[*imap.IntMap[uint32]]()
 	}
